@@ -45,7 +45,7 @@ def floors(tier):
             "keyword_cells_both_outcomes": 80,   # of 107 (draft, keyword) cells
             "distinct_nontrivial": 10000,
             "calibration_cases": 2000, "consulting_pairs_enumerated": 500, "shape_pairs_enumerated": 2000,
-            "pattern_tables_enumerated": 3000, "compared_neutral_configurations": 50000}
+            "pattern_tables_enumerated": 3000, "compared_neutral_configurations": 50000, "compared_with_assorted_ids": 20000}
 
 
 def classify(case, detail):
@@ -97,6 +97,19 @@ def compare(ctx, draft, schema, inst, gate=True, tag="rand"):
     # the same verdict from a validator configured in the ways that do not change the meaning of the schema: the
     # deprecated `types=` argument overriding a type with what it already is, an explicitly passed default resolver
     n = ctx.counters.get("compared", 0)
+    if (n % 7 == 3 or tag == "replay") and isinstance(schema, dict) and not _has_ref(schema):
+        S_id = with_ids(random.Random(n), draft, schema)
+        try:
+            v = cls(S_id)
+            seen = [v.is_valid(inst), v.is_valid(inst), not list(v.iter_errors(inst))]
+        except Exception as e:
+            ctx.violation("verdict-with-ids", {"draft": draft, "schema": S_id, "instance": inst}, "%s: %s" % (type(e).__name__, str(e)[:100]))
+            return
+        ctx.count("compared_with_assorted_ids")
+        if any(x != strict for x in seen):
+            ctx.violation("verdict-with-ids", {"draft": draft, "schema": S_id, "instance": inst},
+                          "one validator asked three times says %r, model says %s (ids of assorted spellings in a reference-free schema)" % (seen, strict))
+            return
     if n % 5 == 0 or tag == "replay":
         for how, mk in CONFIGS:
             try:
@@ -110,6 +123,33 @@ def compare(ctx, draft, schema, inst, gate=True, tag="rand"):
                 ctx.violation("verdict-under-neutral-configuration", {"draft": draft, "schema": schema, "instance": inst, "configuration": how},
                               "with %s the implementation says %s, model says %s" % (how, "valid" if got2 else "invalid", "valid" if strict else "invalid"))
                 return
+
+
+ID_SPELLINGS = ["#item", "#", "#/definitions/x", "item.json", "sub/", "../up.json", "http://vf.example/a/b.json", "urn:vf:thing", "?q=1",
+                "//host/p", "", "a b", "%41", "#a#b"]
+
+
+def with_ids(rng, draft, schema, depth=0):
+    """A copy of a reference-free schema whose subschema objects declare ids of assorted spellings (fragment-only, empty,
+    relative, absolute, non-hierarchical): without references an id changes no verdict."""
+    from vf.gen.schema import walk_subschemas
+    from vf.gen.mutate import get_at, set_at
+    idk = impl.IDKW[draft]
+    out = schema
+    subs = [p for p, s_ in walk_subschemas(draft, schema) if isinstance(s_, dict) and idk not in s_]
+    for p in rng.sample(subs, min(len(subs), 3)):
+        node = get_at(out, list(p))
+        if isinstance(node, dict):
+            out = set_at(out, list(p), dict(node, **{idk: rng.choice(ID_SPELLINGS)}))
+    return out
+
+
+def _has_ref(x):
+    if isinstance(x, dict):
+        return "$ref" in x or any(_has_ref(v) for v in x.values())
+    if isinstance(x, list):
+        return any(_has_ref(v) for v in x)
+    return False
 
 
 def _with_types(cls, schema):
